@@ -14,6 +14,14 @@ CLAIMED = {
    text="the documented substitution policy is a TLA+ decision table (XRustPolicy.tla over Semver.tla); TLC enumerates it exhaustively (every operator/partial-version/pre-release requirement against every version with components 0..2, crate config x unknown policy x rename x parameters x malformed extensions); every cell is replayed through the real TypeSpace and the observed use-site identifier and item inventory are validated by TLC against the table",
    note="bounded: version components 0..2 (thorough 0..3), one pre-release tag; trusted: TLC, Semver.tla (cross-checked per run against crate semver), syn, vdrive",
    ref="DESIGN.md 6 C13"),
+ "C16": dict(
+   text="the type space is specified as a state machine over the public ingestion calls (TypeSpaceContract.tla: promised projections of returned ids, ids returned per added schema, rendered definition set); TLC enumerates every history of up to 3 (thorough 4) calls over 16 call templates, each history is replayed against the real TypeSpace with an observation after every call, and the recorded trace is validated by TLC action by action (IdStable, Idempotent, NoDupNames) plus batch independence across histories of the same group",
+   note="bounded: histories <= 3/4 calls over a fixed template pool; trusted: TLC, vdrive's observation through the public API",
+   ref="DESIGN.md 6 C16"),
+ "C07": dict(
+   text="TLC enumerates every reference multigraph within the bound (n<=2 over 7 edge kinds, n=3 over a reduced alphabet) and builds the schema document in TLA+; each is ingested by the real typify and the containment graph of the generated types (internal snapshot and, independently, a Type::details() walk) is validated by TLC against Containment.tla: acyclic by value, and no Box at all when the schema graph is acyclic",
+   note="bounded: number of definitions and edges; trusted: TLC, hook verif_snapshot (cross-checked against the public walk), vdrive",
+   ref="DESIGN.md 6 C07"),
 }
 NA_REASON = {}
 DEFAULT_NA = "check under construction in this session (DESIGN.md 11); not yet claimed"
